@@ -22,7 +22,7 @@ pub fn read_doc(bytes: &[u8]) -> Option<Doc> {
             for a in e.attributes() {
                 let a = a.ok()?;
                 let v = String::from_utf8(a.value.to_vec()).ok()?;
-                let v = v.replace("&lt;", "<").replace("&quot;", "\"").replace("&amp;", "&");
+                let v = crate::dom::mark_entities(&v).replace("&lt;", "<").replace("&quot;", "\"").replace("&amp;", "&");
                 n.attrs.push((std::str::from_utf8(a.key.as_ref()).ok()?.to_string(), v));
             }
             Some(n)
